@@ -245,6 +245,8 @@ class DocGen:
         for attempt in range(30):
             occ = [[None] * ncols for _ in range(nrows)]
             rows = []
+            # half of the wider layouts: a cell that spans rows and columns with cells to its right in every row it spans
+            both = spans and ncols >= 3 and nrows >= 2 and rng.random() < 0.5
             for r in range(nrows):
                 row = []
                 c = 0
@@ -257,6 +259,8 @@ class DocGen:
                         free += 1
                     cs = min(free, rng.choice([1, 1, 1, 2, 2, 3])) if spans else 1
                     rs = min(nrows - r, rng.choice([1, 1, 1, 2, 2, 3])) if spans else 1
+                    if both and r < nrows - 1 and free >= 2 and c + 2 < ncols:
+                        cs, rs, both = 2, min(nrows - r, rng.choice([2, 2, 3])), False
                     cell = dict(r=r, col=c, cs=cs, rs=rs, h=bool(header and r == 0) or (spans and rng.random() < 0.06), t=False, w=None)
                     for i in range(rs):
                         for j in range(cs):
@@ -279,10 +283,10 @@ class DocGen:
 
     def table_chunk(self):
         rng = self.rng
-        ncols = rng.randint(1, 3)
+        spans = rng.random() < 0.4
+        ncols = rng.randint(2, 4) if spans else rng.randint(1, 3)
         wrapcol = rng.choice([None] + list(range(ncols)))
         header = rng.random() < 0.5
-        spans = rng.random() < 0.4
         rows = self.layout(rng.randint(2 if spans else 1, 3) + int(header), ncols, header, spans)
         cells = [x for row in rows for x in row]
         for x in cells:
@@ -950,9 +954,12 @@ def table_cols(chunk):
 def table_features(chunk):
     cells = [x for row in chunk[4] for x in row]
     f = set()
+    ncols = max(x['col'] + x['cs'] for x in cells)
     for x in cells:
         if x['cs'] > 1 and x['rs'] > 1:
             f.add('span-both')
+            if x['col'] + x['cs'] < ncols:
+                f.add('span-both-cells-to-the-right')      # later rows have cells behind the spanned area
         elif x['cs'] > 1:
             f.add('span-col')
         elif x['rs'] > 1:
